@@ -734,11 +734,14 @@ where
             None
         };
 
-        let scalability_layer = if decoder_options.contains(DecoderOption::USE_SCALABILITY_MODE) {
-            Some(decode_elnum_rlnum(reader, followers)?)
-        } else {
-            None
-        };
+        // ELNUM/RLNUM are part of the PLUS HEADER; a picture without PLUSPTYPE has
+        // no layer fields even when scalability has been negotiated.
+        let scalability_layer =
+            if has_plusptype && decoder_options.contains(DecoderOption::USE_SCALABILITY_MODE) {
+                Some(decode_elnum_rlnum(reader, followers)?)
+            } else {
+                None
+            };
 
         let reference_picture_selection_mode =
             if followers.contains(PlusPTypeFollower::HAS_REFERENCE_PICTURE_SELECTION_MODE) {
